@@ -813,13 +813,25 @@ func runC20(c *Ctx) {
 			name   string
 			signer func() cose.Signer
 			rand   func() io.Reader
+			// what the signer's Sign method does decides the outcome (the library asks nothing else of it)
+			mustFail, mustSucceed bool
 		}
 		variants := []variant{
-			{"der-shaped-output", func() cose.Signer { return &mon.SpySigner{Alg: alg, Out: derLike} }, func() io.Reader { return gen.Entropy }},
-			{"der-shaped-output/ES384", func() cose.Signer { return &mon.SpySigner{Alg: cose.AlgorithmES384, Out: derLike} }, func() io.Reader { return gen.Entropy }},
-			{"entropy-fails-once/best-effort-signer", func() cose.Signer { return &mon.SpySigner{Alg: alg, ReadN: 8, BestEffortRand: true} }, func() io.Reader { return &mon.FaultReader{Src: gen.Entropy, After: 0, Once: true} }},
-			{"entropy-fails-once-after-4/best-effort-signer", func() cose.Signer { return &mon.SpySigner{Alg: alg, ReadN: 16, BestEffortRand: true} }, func() io.Reader { return &mon.FaultReader{Src: gen.Entropy, After: 4, Once: true} }},
-			{"entropy-always-fails/best-effort-signer", func() cose.Signer { return &mon.SpySigner{Alg: alg, ReadN: 8, BestEffortRand: true} }, func() io.Reader { return &mon.FaultReader{Src: gen.Entropy, After: 0} }},
+			{"der-shaped-output", func() cose.Signer { return &mon.SpySigner{Alg: alg, Out: derLike} }, func() io.Reader { return gen.Entropy }, false, false},
+			{"der-shaped-output/ES384", func() cose.Signer { return &mon.SpySigner{Alg: cose.AlgorithmES384, Out: derLike} }, func() io.Reader { return gen.Entropy }, false, false},
+			{"entropy-fails-once/best-effort-signer", func() cose.Signer { return &mon.SpySigner{Alg: alg, ReadN: 8, BestEffortRand: true} }, func() io.Reader { return &mon.FaultReader{Src: gen.Entropy, After: 0, Once: true} }, false, false},
+			{"entropy-fails-once-after-4/best-effort-signer", func() cose.Signer { return &mon.SpySigner{Alg: alg, ReadN: 16, BestEffortRand: true} }, func() io.Reader { return &mon.FaultReader{Src: gen.Entropy, After: 4, Once: true} }, false, false},
+			{"entropy-always-fails/best-effort-signer", func() cose.Signer { return &mon.SpySigner{Alg: alg, ReadN: 8, BestEffortRand: true} }, func() io.Reader { return &mon.FaultReader{Src: gen.Entropy, After: 0} }, false, false},
+			// signers that also have a SignDigest method which behaves differently from Sign
+			{"sign-fails/sign-digest-would-work", func() cose.Signer {
+				return &twoFacedSigner{SpySigner: mon.SpySigner{Alg: alg, Err: mon.ErrInjected}, digestOut: bytesOf(0x33, 64)}
+			}, func() io.Reader { return gen.Entropy }, true, false},
+			{"sign-works/sign-digest-fails", func() cose.Signer {
+				return &twoFacedSigner{SpySigner: mon.SpySigner{Alg: alg}, digestErr: mon.ErrInjected}
+			}, func() io.Reader { return gen.Entropy }, false, true},
+			{"sign-works/sign-digest-panics", func() cose.Signer {
+				return &twoFacedSigner{SpySigner: mon.SpySigner{Alg: alg}, digestPanics: true}
+			}, func() io.Reader { return gen.Entropy }, false, true},
 		}
 		parent := &cose.Sign1Message{Headers: cose.Headers{Protected: cose.ProtectedHeader{int64(1): alg}}, Payload: []byte("parent"), Signature: mon.FixedSig}
 		for _, v := range variants {
@@ -862,6 +874,10 @@ func runC20(c *Ctx) {
 					b, e := cose.Countersign0(v.rand(), sg, parent, nil)
 					return res{err: e, bytes: b}
 				},
+				"SignHashEnvelope": func() res {
+					b, e := cose.SignHashEnvelope(v.rand(), sg, hd(), cose.HashEnvelopePayload{HashAlgorithm: cose.AlgorithmSHA256, HashValue: make([]byte, 32)})
+					return res{err: e, bytes: b}
+				},
 			}
 			for name, run := range entries {
 				key := "succeeding-signer/" + v.name + "/" + name
@@ -873,6 +889,14 @@ func runC20(c *Ctx) {
 				rec.Eval(1)
 				rec.Event("succeeding-signer-cases")
 				rec.Class(fmt.Sprintf("%s/ok=%v", key, r.err == nil))
+				if v.mustFail && r.err == nil {
+					rec.Violate("error-lost", key, fmt.Sprintf("the signer's Sign failed, yet the call succeeded (stored %s, returned %s)", hexs(r.stored), hexs(r.bytes)), in)
+					continue
+				}
+				if v.mustSucceed && r.err != nil {
+					rec.Violate("ok-vector-failed", key, "the signer's Sign works, yet the call failed: "+r.err.Error(), in)
+					continue
+				}
 				if r.err == nil {
 					if r.emit != nil {
 						if _, e := r.emit(); e != nil {
@@ -1047,6 +1071,58 @@ func runC20(c *Ctx) {
 			}
 		}
 	}
+	// ---------- SignHashEnvelope with a working signer and inputs something later in the call may object to ----------
+	// (text that is not UTF-8, a nested map holding one key in two Go spellings, values no decoder would take
+	// back): whatever is decided, the answer is bytes or an error, never both
+	{
+		type oddCase struct {
+			name string
+			h    cose.Headers
+			p    cose.HashEnvelopePayload
+		}
+		base := func() cose.HashEnvelopePayload {
+			return cose.HashEnvelopePayload{HashAlgorithm: cose.AlgorithmSHA256, HashValue: make([]byte, 32)}
+		}
+		with := func(f func(p *cose.HashEnvelopePayload)) cose.HashEnvelopePayload { p := base(); f(&p); return p }
+		emptyH := func() cose.Headers {
+			return cose.Headers{Protected: cose.ProtectedHeader{}, Unprotected: cose.UnprotectedHeader{}}
+		}
+		withU := func(k, v any) cose.Headers { h := emptyH(); h.Unprotected[k] = v; return h }
+		withP := func(k, v any) cose.Headers { h := emptyH(); h.Protected[k] = v; return h }
+		for _, oc := range []oddCase{
+			{"location-not-utf8", emptyH(), with(func(p *cose.HashEnvelopePayload) { p.Location = "loc\xff\xfe" })},
+			{"content-type-not-utf8", emptyH(), with(func(p *cose.HashEnvelopePayload) { p.PreimageContentType = "text/\xc3plain" })},
+			{"text-value-not-utf8", withU(int64(99), "\xff"), base()},
+			{"text-label-not-utf8", withU("\xfe", int64(1)), base()},
+			{"protected-text-value-not-utf8", withP(int64(99), "a\xc0\xaf"), base()},
+			{"nested-map-one-key-two-spellings", withU(int64(99), map[any]any{int64(1): "a", int(1): "b"}), base()},
+			{"nested-map-in-protected-two-spellings", withP(int64(99), map[any]any{int8(2): 1, uint16(2): 2}), base()},
+			{"value-uint64-above-int64", withU(int64(99), uint64(1)<<63), base()},
+			{"nested-text-not-utf8", withU(int64(99), []any{"ok", "\xff"}), base()},
+			{"hash-value-nil", emptyH(), with(func(p *cose.HashEnvelopePayload) { p.HashValue = nil })},
+			{"kid-empty", withU(int64(4), []byte{}), base()},
+		} {
+			for _, f := range []int{fOK} {
+				sg := mkSigner(alg, f)
+				key := "hash-envelope-odd-input/" + oc.name
+				in := map[string]any{"cell": key}
+				var out []byte
+				var err error
+				if guard(rec, "SignHashEnvelope(odd input)", in, func() { out, err = cose.SignHashEnvelope(gen.Entropy, sg, oc.h, oc.p) }) {
+					continue
+				}
+				rec.Eval(1)
+				rec.Event("hash-envelope-odd-input-cases")
+				rec.Class(fmt.Sprintf("%s/refused=%v", key, err != nil))
+				if err != nil && len(out) > 0 {
+					rec.Violate("bytes-with-error", key, fmt.Sprintf("SignHashEnvelope returned %d bytes together with the error %v", len(out), err), in)
+				}
+				if err == nil && len(out) == 0 {
+					rec.Violate("error-lost", key, "SignHashEnvelope returned neither bytes nor an error", in)
+				}
+			}
+		}
+	}
 	rec.Require("received-resigned-cases", 50)
 	rec.Require("opaque-signer-cases", 100)
 	rec.Require("entropy-fault-surfaced", 50)
@@ -1079,3 +1155,18 @@ func (o *opaqueSigner) Sign(io.Reader, []byte, crypto.SignerOpts) ([]byte, error
 }
 
 var errPanicMarker = errors.New("panic marker")
+
+// twoFacedSigner is a Signer that also offers SignDigest, with another behaviour than Sign.
+type twoFacedSigner struct {
+	mon.SpySigner
+	digestOut    []byte
+	digestErr    error
+	digestPanics bool
+}
+
+func (t *twoFacedSigner) SignDigest(io.Reader, []byte) ([]byte, error) {
+	if t.digestPanics {
+		panic("SignDigest is not to be called")
+	}
+	return t.digestOut, t.digestErr
+}
